@@ -143,10 +143,27 @@ def setup(ctx):
 def workload(ctx):
     rng = ctx.rng(1)
     n = ctx.n(2500, 30000)
+    prev = []
     for i in range(n):
         c, stratum = gen.cell(rng, gen.CELL_STRATA[i % len(gen.CELL_STRATA)])
+        r = rng.random()
+        if prev and r < 0.25:
+            # histories: a refinement scan (the previous cell changed by 1e-8..1e-3 relative in one or all parameters) ...
+            base = prev[-1]
+            d = 10 ** rng.uniform(-8, -3) * rng.choice([-1, 1])
+            if rng.random() < 0.5:
+                c = [x * (1 + d) for x in base]
+            else:
+                j = int(rng.integers(6))
+                c = [x * (1 + d) if n_ == j else x for n_, x in enumerate(base)]
+            stratum = "scan"
+        elif len(prev) > 1 and r < 0.35:
+            c, stratum = list(prev[-2]), "revisit"          # ... and A-B-A alternation
+        if oracle.gram_det_angular(c) < 0.02 or max(c[3:]) >= 175 or min(c[3:]) <= 5:
+            c, stratum = gen.cell(rng, "generic")
+        prev = (prev + [c])[-3:]
         hkls = [gen.hkl(rng) for _ in range(4)] + [gen.NEIGHBOURS[int(rng.integers(26))]]
-        yield "cell", {"cell": c, "stratum": stratum, "hkls": hkls}
+        yield "cell", {"cell": [float(x) for x in c], "stratum": stratum, "hkls": hkls}
     rng = ctx.rng(2)
     for i in range(ctx.n(60, 400)):
         c, stratum = gen.cell(rng, gen.CELL_STRATA[i % len(gen.CELL_STRATA)])
